@@ -485,6 +485,14 @@ fn named_bait(ctx: &Ctx, idx: u64) -> Vec<u8> {
         let rec = m.secs[2].pop().unwrap();
         m.secs[0].push(rec);
     }
+    // the shape the resolver is looking for: an SRV answer whose address travels in the additional section
+    if idx % 5 == 0 {
+        let mut srv = vec![0, 1, 0, 2, 0x1F, 0x90];
+        srv.extend_from_slice(&[11]); srv.extend_from_slice(b"nobody-home"); srv.extend_from_slice(&[5]); srv.extend_from_slice(b"local"); srv.push(0);
+        m.secs[0].insert(0, RRM::new(owner.clone(), 33, 1, 120, Rd::Opaque(srv)));
+        let addr: (u16, Vec<u8>) = if idx % 10 == 0 { (28, { let mut v = vec![0u8; 16]; v[15] = 1; v }) } else { (1, vec![127, 0, 0, 9]) };
+        m.secs[2].insert(0, RRM::new(owner.clone(), addr.0, 1, 120, Rd::Opaque(addr.1)));
+    }
     encode(&m, if r.bool() { Plan::None } else { Plan::Canonical }).bytes
 }
 
@@ -675,8 +683,18 @@ fn level2(ctx: &mut Ctx) {
         let Ok(mut res) = sync_discovery::OneShotMdnsResolver::new() else { return (0, panics) };
         res.set_query_timeout(Duration::from_millis(300));
         while !rs.load(Ordering::Relaxed) {
-            match monitor::guard(|| { let _ = res.query_service_address("nobody-home.local"); let _ = res.query_service_address_and_port("nobody-home.local"); }) {
-                Ok(()) => queries += 2,
+            match monitor::guard(|| {
+                let _ = res.query_service_address("nobody-home.local");
+                let _ = res.query_service_address_and_port("nobody-home.local");
+                // the raw entry point: whatever it hands back is then parsed by the application
+                res.set_unicast_response(queries % 4 == 0);
+                let mut p = Packet::new_query(0);
+                p.questions.push(Question::new(Name::new("nobody-home.local").unwrap(), TYPE::SRV.into(), CLASS::IN.into(), queries % 4 == 0));
+                if let Ok(Some(bytes)) = res.query_packet(p) {
+                    let _ = Packet::parse(&bytes).map(|p| p.answers.len());
+                }
+            }) {
+                Ok(()) => queries += 3,
                 Err(p) => { panics.push(p); }
             }
         }
@@ -690,7 +708,13 @@ fn level2(ctx: &mut Ctx) {
         while !ars.load(Ordering::Relaxed) {
             let _ = res.query_service_address("nobody-home.local").await;
             let _ = res.query_service_address_and_port("nobody-home.local").await;
-            queries += 2;
+            res.set_unicast_response(queries % 4 == 0);
+            let mut p = Packet::new_query(0);
+            p.questions.push(Question::new(Name::new("nobody-home.local").unwrap(), TYPE::SRV.into(), CLASS::IN.into(), queries % 4 == 0));
+            if let Ok(Some(bytes)) = res.query_packet(p).await {
+                let _ = Packet::parse(&bytes).map(|p| p.answers.len());
+            }
+            queries += 3;
         }
         queries
     });
@@ -1021,7 +1045,10 @@ fn level2(ctx: &mut Ctx) {
         ("ServiceDiscovery::get_known_services", { let (a, b, d) = (disc_a.clone(), disc_b.clone(), disc_d.clone()); Box::new(move || { let _ = a.get_known_services(); let _ = b.get_known_services(); let _ = d.get_known_services(); }) }),
         ("ServiceDiscovery::announce", { let (a, b, d) = (disc_a.clone(), disc_b.clone(), disc_d.clone()); Box::new(move || { a.announce(false); b.announce(false); d.announce(false); }) }),
         ("tokio SimpleMdnsResponder::add_resource", { let (r, h, rr) = (aresponder.clone(), handle.clone(), probe_rr()); Box::new(move || h.block_on(async { r.lock().await.add_resource(rr).await })) }),
+        ("tokio SimpleMdnsResponder::remove_resource_record", { let (r, h, rr) = (aresponder.clone(), handle.clone(), probe_rr()); Box::new(move || h.block_on(async { r.lock().await.remove_resource_record(rr).await })) }),
         ("tokio ServiceDiscovery::get_known_services", { let (d, e, h) = (adisc.clone(), adisc_e.clone(), handle.clone()); Box::new(move || { if let Ok(d) = &*d { let _ = h.block_on(d.get_known_services()); } if let Ok(e) = &*e { let _ = h.block_on(e.get_known_services()); } }) }),
+        ("SimpleMdnsResponder::clear", { let r = responder.clone(); Box::new(move || r.lock().unwrap().clear()) }),
+        ("tokio SimpleMdnsResponder::clear", { let (r, h) = (aresponder.clone(), handle.clone()); Box::new(move || h.block_on(async { r.lock().await.clear().await })) }),
     ];
     for (what, f) in probes {
         let (tx, rx) = std::sync::mpsc::channel();
@@ -1038,6 +1065,186 @@ fn level2(ctx: &mut Ctx) {
     super::common::report_lock_discipline(ctx, "store-stays-usable", "level2");
     ctx.add("level2_datagrams_sent", sent);
     ctx.add("level2_tokio_on_discovery_values_drained", drained.load(Ordering::Relaxed));
+    rt.shutdown_timeout(Duration::from_millis(200));
+}
+
+/// Level 2 over IPv6 (`NetworkScope::V6`, group ff02::fb): the same services on their IPv6 sockets. Smaller than the IPv4 part; where
+/// the host has no IPv6 multicast the part is skipped with a note (the IPv4 part decides the property).
+fn level2_v6(ctx: &mut Ctx) {
+    use simple_mdns::{async_discovery, sync_discovery, NetworkScope};
+    let group: SocketAddr = "[ff02::fb]:5353".parse().unwrap();
+    let Ok(sock) = UdpSocket::bind("[::]:0") else {
+        ctx.notes.push("level 2 / IPv6 skipped: cannot bind an IPv6 UDP socket".into());
+        ctx.count("level2_v6_skipped");
+        return;
+    };
+    let _ = sock.set_read_timeout(Some(Duration::from_millis(40)));
+    let _ = sock.set_multicast_loop_v6(true);
+    let pid = std::process::id();
+    let before = monitor::foreign_panic_count();
+    let rname = format!("marker6-r{}.local", pid);
+    let aname = format!("marker6-a{}.local", pid);
+    let svc_a = format!("_wa{}._tcp.local", pid);
+    let svc_c = format!("_wc{}._tcp.local", pid);
+    let rt = tokio::runtime::Builder::new_multi_thread().worker_threads(2).enable_all().build().unwrap();
+    let v6 = std::net::Ipv6Addr::new(0xfe80, 0, 0, 0, 0, 0, 0, 1);
+    let started = monitor::guard(|| {
+        let mut responder = sync_discovery::SimpleMdnsResponder::new_with_scope(10, NetworkScope::V6);
+        responder.add_resource(ResourceRecord::new(Name::new(&rname).unwrap().into_owned(), CLASS::IN, 10, RData::AAAA(simple_dns::rdata::AAAA { address: 1 })));
+        let (tx, rx) = std::sync::mpsc::channel();
+        let disc_a = sync_discovery::ServiceDiscovery::new_with_scope(InstanceInformation::new("self".into()).with_ip_address(v6.into()).with_port(1), &svc_a, 10, Some(tx), NetworkScope::V6);
+        let _g = rt.enter();
+        let mut ar = async_discovery::SimpleMdnsResponder::new_with_scope(10, NetworkScope::V6);
+        rt.block_on(ar.add_resource(ResourceRecord::new(Name::new(&aname).unwrap().into_owned(), CLASS::IN, 10, RData::AAAA(simple_dns::rdata::AAAA { address: 2 }))));
+        let (atx, arx) = tokio::sync::mpsc::channel(1024);
+        let ad = async_discovery::ServiceDiscovery::new_with_scope(InstanceInformation::new("self".into()).with_ip_address(v6.into()).with_port(3), &svc_c, 10, Some(atx), NetworkScope::V6);
+        (responder, disc_a, rx, ar, ad, arx)
+    });
+    let (_responder, disc_a, rx, _aresponder, adisc, mut arx) = match started {
+        Ok(x) => x,
+        Err(pn) => {
+            ctx.notes.push(format!("level 2 / IPv6 skipped: starting the IPv6 services panicked: {} at {}", pn.message, pn.location));
+            ctx.count("level2_v6_skipped");
+            let _ = monitor::take_foreign_panics();
+            rt.shutdown_timeout(Duration::from_millis(200));
+            return;
+        }
+    };
+    let (Ok(disc_a), Ok(_adisc)) = (disc_a, adisc) else {
+        ctx.notes.push("level 2 / IPv6 skipped: an IPv6 ServiceDiscovery could not start (no IPv6 multicast on this host?)".into());
+        ctx.count("level2_v6_skipped");
+        rt.shutdown_timeout(Duration::from_millis(200));
+        return;
+    };
+    // the application drains its channels
+    rt.spawn(async move { while arx.recv().await.is_some() {} });
+    let _drain = std::thread::Builder::new().name("verif-drain6".into()).spawn(move || { while rx.recv().is_ok() {} });
+    let beat = Arc::new(std::sync::atomic::AtomicU64::new(0));
+    {
+        let b = beat.clone();
+        rt.spawn(async move {
+            loop {
+                tokio::time::sleep(Duration::from_millis(25)).await;
+                b.fetch_add(1, Ordering::Relaxed);
+            }
+        });
+    }
+    let markers = vec![
+        Marker { what: "sync SimpleMdnsResponder (IPv6)", name: rname.clone(), qtype: TYPE::AAAA },
+        Marker { what: "sync ServiceDiscovery (IPv6, on_discovery)", name: svc_a.clone(), qtype: TYPE::PTR },
+        Marker { what: "tokio SimpleMdnsResponder (IPv6)", name: aname.clone(), qtype: TYPE::AAAA },
+        Marker { what: "tokio ServiceDiscovery (IPv6, on_discovery)", name: svc_c.clone(), qtype: TYPE::PTR },
+    ];
+    std::thread::sleep(Duration::from_millis(300));
+    let mut mid: u16 = 0x6000;
+    for m in &markers {
+        mid = mid.wrapping_add(1);
+        if !probe(ctx, &sock, &group, m, mid, Duration::from_secs(3)) {
+            if monitor::foreign_panic_count() > before {
+                report_foreign(ctx, "before any hostile IPv6 datagram");
+            }
+            ctx.notes.push(format!("level 2 / IPv6 skipped: no marker reply from the {} before any hostile traffic (no IPv6 multicast loopback on this host?)", m.what));
+            ctx.count("level2_v6_skipped");
+            rt.shutdown_timeout(Duration::from_millis(200));
+            return;
+        }
+    }
+    ctx.count("level2_v6_services_started");
+    let total = if ctx.slow_tool { 100 } else { ctx.tier.pick(6_000u64, 80_000u64) };
+    let svc_names = [svc_a.clone(), svc_c.clone()];
+    let (mut sent, mut idx, mut violated) = (0u64, 0u64, false);
+    let mut misses: Vec<u32> = vec![0; markers.len()];
+    while sent < total && !violated {
+        let mut batch_hex: Vec<String> = Vec::new();
+        for _ in 0..20 {
+            idx += 1;
+            let fam = match idx % 8 { 0 => "short", 1 => "corpus", 2 | 3 => "hostile-response", 4 => "hostile-query", 5 => "valid", _ => "havoc" };
+            let mut d = if fam == "valid" && idx % 16 == 5 {
+                peer_announcement(&svc_names[((idx / 16) % 2) as usize], if (idx / 64) % 2 == 1 { 0 } else { 120 })
+            } else {
+                datagram(ctx, fam, 1_000_000 + idx)
+            };
+            if fam == "hostile-response" && !d.iter().any(|b| *b & 0xC0 == 0xC0) {
+                let to_label = svc_names[((idx / 8) % 2) as usize].split('.').next().unwrap().as_bytes().to_vec();
+                let from = b"\x06_verif";
+                if let Some(pos) = d.windows(from.len()).position(|w| w == from) {
+                    let mut nd = d[..pos].to_vec();
+                    nd.push(to_label.len() as u8);
+                    nd.extend_from_slice(&to_label);
+                    nd.extend_from_slice(&d[pos + from.len()..]);
+                    d = nd;
+                }
+            }
+            d.truncate(8900);
+            let _ = sock.send_to(&d, group);
+            ctx.case_bytes(true, &d);
+            ctx.count("level2_v6_datagrams");
+            batch_hex.push(hex(&d[..d.len().min(300)]));
+            sent += 1;
+        }
+        let mut round_ok = vec![false; markers.len()];
+        for (mi, m) in markers.iter().enumerate() {
+            mid = mid.wrapping_add(1);
+            let ok = probe(ctx, &sock, &group, m, mid, Duration::from_secs(2));
+            round_ok[mi] = ok;
+            if ok {
+                ctx.count("level2_v6_marker_replies");
+                misses[mi] = 0;
+            } else if monitor::foreign_panic_count() > before {
+                break;
+            } else {
+                misses[mi] += 1;
+                ctx.count("level2_v6_marker_replies_missing_without_panic");
+            }
+        }
+        for (mi, m) in markers.iter().enumerate() {
+            if misses[mi] >= 3 && round_ok.iter().any(|o| *o) {
+                ctx.violation("loop-keeps-running", &format!("service-stopped-answering:{}", m.what),
+                    format!("{} did not answer its marker query in {} consecutive rounds although no panic was recorded and other services still answer: its receive loop ended", m.what, misses[mi]),
+                    json!({"family": "level2-v6", "idx": idx, "last_batch": batch_hex}));
+                violated = true;
+            }
+        }
+        let b0 = beat.load(Ordering::Relaxed);
+        let t = Instant::now();
+        while !violated && beat.load(Ordering::Relaxed) == b0 {
+            if t.elapsed() > Duration::from_secs(20) {
+                ctx.violation("loop-keeps-running", "tokio-runtime-starved-by-service-tasks",
+                    "the heartbeat task of the application's tokio runtime (2 workers, IPv6 services) has not run for 20 s: tasks of the tokio services occupy every worker without yielding".into(),
+                    json!({"family": "level2-v6", "idx": idx, "last_batch": batch_hex}));
+                violated = true;
+            }
+            std::thread::sleep(Duration::from_millis(20));
+        }
+        if monitor::foreign_panic_count() > before {
+            for fp in &monitor::take_foreign_panics() {
+                let loc = monitor::short_loc(&fp.location);
+                ctx.violation("loop-keeps-running", &format!("service-thread-panic@{}", loc),
+                    format!("a library thread ({}) panicked at {} while the IPv6 services handled a batch of datagrams: {}", fp.thread, loc, fp.message),
+                    json!({"family": "level2-v6", "idx": idx, "batch": batch_hex}));
+            }
+            violated = true;
+        }
+        if ctx.time_up() {
+            break;
+        }
+    }
+    // the store of the sync discovery is still usable by the application
+    if !violated {
+        let (tx, rx) = std::sync::mpsc::channel();
+        let d = Arc::new(disc_a);
+        let d2 = d.clone();
+        let _ = std::thread::Builder::new().name("verif-probe6".into()).spawn(move || {
+            let r = monitor::guard(|| { let _ = d2.get_known_services(); d2.announce(false); });
+            let _ = tx.send(r);
+        });
+        match rx.recv_timeout(Duration::from_secs(10)) {
+            Ok(Ok(())) => ctx.count("level2_v6_lock_health_probes_ok"),
+            Ok(Err(pn)) => ctx.violation("store-stays-usable", "api-unusable-after-traffic:ServiceDiscovery (IPv6)", format!("get_known_services / announce panicked after the hostile IPv6 traffic: {}", pn.message), json!({"family": "level2-v6", "idx": idx})),
+            Err(_) => ctx.violation("store-stays-usable", "api-blocked-after-traffic:ServiceDiscovery (IPv6)", "get_known_services / announce did not return within 10 s after the IPv6 traffic".into(), json!({"family": "level2-v6", "idx": idx})),
+        }
+    }
+    super::common::report_lock_discipline(ctx, "store-stays-usable", "level2-v6");
     rt.shutdown_timeout(Duration::from_millis(200));
 }
 
@@ -1098,6 +1305,9 @@ pub fn run(ctx: &mut Ctx) {
     let only_l2 = std::env::var_os("VERIF_C14_LEVEL2_ONLY").is_some();
     if ctx.shard == 0 && std::env::var_os("VERIF_C14_NO_LEVEL2").is_none() && !cfg!(miri) {
         level2(ctx);
+        if std::env::var_os("VERIF_C14_NO_V6").is_none() && !ctx.slow_tool {
+            level2_v6(ctx);
+        }
     }
     if !only_l2 {
         level1(ctx);
